@@ -363,6 +363,8 @@ class Walker:
         else:
             v, c = ('uninit',), T
         m = self.bind(n['pat'], v, pc)
+        if n['pat'].get('k') == 'Bind':
+            self.emit('bind', n, pc, name=n['pat']['n'], var=n['pat']['v'], value=v)
         if 'else' in n:
             self.ev(n['else'], And(pc, c, Not(m)))
             return ('unit',), And(c, m)
